@@ -24,6 +24,13 @@ THEOREMS = [
     "TornadoModel.C23.min_version_respected",
     "TornadoModel.C23.created_version",
     "TornadoModel.C23.decode_total",
+    "TornadoModel.C23.utf8?_of_scalar",
+    "TornadoModel.C23.utf8?_of_surrogate",
+    "TornadoModel.C23.decodeIn_encodable",
+    "TornadoModel.C23.decodeIn_unencodable",
+    "TornadoModel.C23.decodeIn_total",
+    "TornadoModel.C23.decodeInUnfixed_raised",
+    "TornadoModel.C23.decodeInUnfixed_encodable",
     "TornadoModel.C23.spec_accept_sound",
 ]
 TRUSTED = [
@@ -31,12 +38,12 @@ TRUSTED = [
     "strings of hex digits); their unforgeability is what turns decode_sound + v2_tosign_injective into 'cannot be forged'",
     "CPython 3.12 int(bytes), bytes.partition/split, slicing, binascii.a2b_base64/b2a_base64 as modelled in "
     "C23/Model.lean (each has its own correspondence stream: pyint, b64enc, b64dec)",
-    "escape.utf8 of the secret and of the value is applied by the harness before the model sees them; "
-    "utf8 of the *name* is modelled (utf8Cp)",
+    "escape.utf8 of the *secret* is applied by the harness before the model sees it; utf8 of the name and of a value "
+    "given as str IS modelled (utf8Cp; utf8? = None on a lone surrogate = UnicodeEncodeError; PyVal = bytes | str)",
 ]
 ASSUMPTIONS = [
-    "names/values/secrets given as str contain Unicode scalar values only (a lone surrogate makes utf8() itself raise; "
-    "cookie text from an HTTP request is latin-1-decoded bytes and cannot contain one)",
+    "*secrets* given as str contain Unicode scalar values only (configuration, like min_version; create_signed_value "
+    "raises on such a secret too).  Names and values are arbitrary str (lone surrogates included and generated) or bytes",
     "clock() returns whole seconds >= 0 (int or integral float) and max_age_days is a multiple of 1/4 day, so the "
     "float arithmetic in the expiry test is exact; 'creation time' means the embedded integer timestamp",
     "key versions are non-negative ints; secrets are str/bytes or dict[int, str|bytes]; keys in one case never differ "
@@ -45,7 +52,9 @@ ASSUMPTIONS = [
     "strings carrying a correct HMAC that create_signed_value did not issue (made with the key) are used for the "
     "correspondence and for 'never raises' only: 'returns None for any other input' is read modulo unforgeability of H",
 ]
-RULE = ("create+decode cases over both formats and both secret forms with one mutation each (every single-byte "
+RULE = ("values presented as bytes or as str (ASCII, surrogateescape-decoded, with a code point of / next to the surrogate "
+        "block inserted or replaced), names with such code points; "
+        "create+decode cases over both formats and both secret forms with one mutation each (every single-byte "
         "delete/replace/insert position of base values is enumerated), arbitrary and grammar-shaped strings, "
         "key-holder-crafted strings with valid signatures, v1 boundary-shift splices; non-trivial = the case reaches "
         "signature verification (3 v1 parts / 4 parsable v2 fields) or decodes to a value")
@@ -57,7 +66,10 @@ CLAUSES = {
     "a different secret or key version -> None": "decode_sound_v2/_v1 (accepted => signature made with the verifier's key for that version)",
     "an expired timestamp -> None": "expired_rejected",
     "a version below min_version -> None": "min_version_respected",
-    "decoding never raises": "decode_total",
+    "decoding never raises": "decodeIn_total (caller level: bytes or any str incl. lone surrogates, any str name) over decode_total; "
+                             "both hold because the model gives every raising Python operation an explicit branch - WHICH operations "
+                             "can raise is model fidelity, i.e. the tie (arb / crafted / scan / sur streams, Uncaught:* compared exactly)",
+    "a value or name that cannot be UTF-8 encoded -> None": "decodeIn_unencodable (fixed code; decodeInUnfixed_raised states the former defect)",
     "base64 payload encoding is invertible": "b64_roundtrip",
 }
 PARALLEL = True
@@ -72,6 +84,10 @@ ASCII_NAMES = ["n", "name", "user", "a", "sid", "x" * 40]
 VALUES = [b"", b"v", b"val", b"hello world", b"\x00\xff\x10", "päyload".encode(), b"\xd7\x6d\xf8", b"\xd7\x6d\xf8" * 2,
           b"ABC\xd7\x6d\xf8", b"1234567890", b"a|b|c", b"2|1:0|", b"x" * 57, b"y" * 300, b"ab", b"abcd", b"\n"]
 KEYS = ["k", "secret", "sécret", "K" * 70, "0", "other", "k2", "key-3"]
+# code points around the surrogate block: D7FF / E000 are the encodable neighbours, D800..DFFF are not encodable;
+# 0x1F600 is what the pair D83D+DE00 would mean (encodable as ONE code point, not as two)
+SUR_CPS = [0xD800, 0xDBFF, 0xDC00, 0xDFFF, 0xDC80, 0xD83D]
+NEAR_CPS = [0xD7FF, 0xE000, 0xE9, 0x10FFFF, 0x1F600, 0x7F, 0x80]
 
 
 def _kb(k):
@@ -95,7 +111,9 @@ class _Rec:
         return d
 
     def digest(self):
-        return self._h.digest()
+        d = self._h.digest()
+        self._log.append([self._which, self._key.hex(), bytes(self._buf).hex(), d.hex().encode().hex()])
+        return d
 
 
 class _HmacShim:
@@ -105,6 +123,13 @@ class _HmacShim:
 
     def new(self, key, msg=None, digestmod=None):
         return _Rec(self.log, key, msg, digestmod)
+
+    def digest(self, key, msg, digest):
+        # one-shot form (not used by the present code; a rewrite that compares raw digests must not look like a crash)
+        d = _hmac.digest(key, msg, digest)
+        which = 1 if digest in (hashlib.sha1, "sha1") else 2 if digest in (hashlib.sha256, "sha256") else 9
+        self.log.append([which, bytes(key).hex(), bytes(msg).hex(), d.hex().encode().hex()])
+        return d
 
     compare_digest = staticmethod(_hmac.compare_digest)
 
@@ -202,6 +227,42 @@ def _mutate(s, m):
 
 def _exc(e):
     return "Uncaught:" + type(e).__name__
+
+
+def _present(case, string):
+    """how the byte string `string` is handed to decode_signed_value: as bytes, or as a `str`.
+    str_value: False = bytes | True = str when ASCII (else bytes) | ["sesc"] = str via utf-8/surrogateescape (undecodable
+    bytes become the lone surrogates U+DC80..U+DCFF) | ["ins", pos, cp] / ["rep", pos, cp] = that str with one code point
+    inserted / replaced | ["pair", pos] = a high and a low surrogate inserted as TWO code points."""
+    sv = case.get("str_value")
+    if not sv:
+        return string
+    if sv is True:
+        try:
+            return string.decode("ascii")
+        except UnicodeDecodeError:
+            return string
+    t = string.decode("utf-8", "surrogateescape")
+    if sv[0] == "sesc":
+        return t
+    i = sv[1] % (len(t) + 1)
+    if sv[0] == "ins":
+        return t[:i] + chr(sv[2]) + t[i:]
+    if sv[0] == "rep":
+        return t[:i] + chr(sv[2]) + t[i + 1:]
+    if sv[0] == "pair":
+        return t[:i] + "\ud83d\ude00" + t[i:]
+    raise AssertionError(sv)
+
+
+def _enc(x):
+    """utf8() of a presented value / a name: bytes, or None when it cannot be encoded (lone surrogate)"""
+    if isinstance(x, bytes):
+        return x
+    try:
+        return x.encode("utf-8")
+    except UnicodeEncodeError:
+        return None
 
 
 def _hx(b):
@@ -469,6 +530,92 @@ def _splice_case(rng, how):
             "min_version": None, "fclock": False, "str_value": False, "splice": how}
 
 
+def _sur_name(rng, name):
+    """`name` with one code point of / next to the surrogate block put in (front, middle, end), or such a code point alone"""
+    cp = rng.choice(SUR_CPS) if rng.random() < 0.75 else rng.choice(NEAR_CPS)
+    k = rng.random()
+    if k < 0.15:
+        return chr(cp)
+    if k < 0.25:
+        return name + "\ud83d\ude00"          # a high/low pair kept as two code points
+    i = rng.choice([0, len(name), rng.randint(0, len(name))])
+    return name[:i] + chr(cp) + name[i:]
+
+
+def _rand_str_value(rng):
+    k = rng.random()
+    cp = rng.choice(SUR_CPS) if rng.random() < 0.7 else rng.choice(NEAR_CPS)
+    if k < 0.25:
+        return ["sesc"]
+    if k < 0.65:
+        return ["ins", rng.choice([0, 1, 2, 3, 1 << 20, rng.randrange(1 << 20)]), cp]
+    if k < 0.9:
+        return ["rep", rng.choice([0, 1, 2, rng.randrange(1 << 20)]), cp]
+    return ["pair", rng.randrange(1 << 20)]
+
+
+def _twist(rng, case):
+    """the str -> bytes step: present the value as a `str` (possibly with lone surrogates) and / or look it up under a
+    name with a lone surrogate; rarely sign under such a name (create_signed_value then raises)"""
+    k = rng.random()
+    if k < 0.45:
+        case["str_value"] = _rand_str_value(rng)
+    elif k < 0.8:
+        case["dname"] = _sur_name(rng, case.get("name", case["dname"]))
+    elif k < 0.93 or case["kind"] != "rt":
+        case["str_value"] = _rand_str_value(rng)
+        case["dname"] = _sur_name(rng, case.get("name", case["dname"]))
+    else:
+        case["name"] = _sur_name(rng, case["name"])
+        if rng.random() < 0.5:
+            case["dname"] = case["name"]
+    return case
+
+
+def _sur_cases(rng, tier):
+    """systematic: {valid v1, valid v2 single key, valid v2 key dictionary, a few raw strings} x {name as signed, name with a
+    surrogate / neighbour at front, end, alone} x {bytes, str, str with a surrogate / neighbour at front, middle, end, pair}"""
+    bases = [
+        dict(version=2, secret=["s", "k"], kv=None, name="n", value=b"val"),
+        dict(version=1, secret=["s", "k"], kv=None, name="n", value=b"val"),
+        dict(version=2, secret=["d", [[0, "k"], [1, "k2"]]], kv=1, name="usér", value=b"\xd7\x6d\xf8"),
+    ]
+    cps = [0xD800, 0xDFFF, 0xD7FF, 0xE000] + ([0xDBFF, 0xDC00, 0xDC80] if tier == "thorough" else [])
+    presentations = [False, True, ["sesc"], ["pair", 2]]
+    for cp in cps:
+        presentations += [["ins", 0, cp], ["ins", 5, cp], ["ins", 1 << 20, cp], ["rep", 0, cp], ["rep", 7, cp]]
+    few = [False, True, ["sesc"], ["pair", 2], ["ins", 0, 0xD800], ["ins", 1 << 20, 0xDFFF], ["rep", 0, 0xDC00],
+           ["ins", 1, 0xD7FF], ["ins", 0, 0xE000]]
+    if tier != "thorough":      # quick: a third of the presentations (front / middle / end, both block edges, both neighbours)
+        presentations = few + [["ins", 5, 0xD800], ["rep", 7, 0xDFFF]]
+    for b in bases:
+        names = [b["name"], "\ud83d\ude00", b["name"] + "\ud83d\ude00"]
+        for cp in cps:
+            names += [b["name"] + chr(cp), chr(cp) + b["name"], chr(cp)]
+        for dn in names:
+            for pres in presentations:
+                yield {"kind": "rt", "secret": b["secret"], "name": b["name"], "value": b["value"].hex(),
+                       "version": b["version"], "t": 1700000000, "kv": b["kv"], "dsecret": b["secret"], "dname": dn,
+                       "muts": [["none"], ["trunc", 1], ["app", "ff"]], "max_age_days": 31, "now": 1700000005,
+                       "min_version": None, "fclock": False, "str_value": pres, "sur": True}
+        # signing under a name that cannot be encoded: create_signed_value raises UnicodeEncodeError
+        for cp in cps[:2]:
+            yield {"kind": "rt", "secret": b["secret"], "name": b["name"] + chr(cp), "value": b["value"].hex(),
+                   "version": b["version"], "t": 1700000000, "kv": b["kv"], "dsecret": b["secret"], "dname": b["name"],
+                   "muts": [["none"]], "max_age_days": 31, "now": 1700000005, "min_version": None, "fclock": False,
+                   "str_value": False, "sur": True}
+    raws = [b"", b"abc", b"a|1|c", b"|1|", b"2|", b"2|1:0|", b"2|1:0|1:5|1:n|4:dmFs|" + b"0" * 64, b"\xed\xa0\x80", b"\xff", b"2|\xff"]
+    for raw in raws:
+        for sec in (["s", "k"], ["d", [[0, "k"]]]):
+            for dn in ("n", "n\ud800", "\udfff"):
+                for pres in (presentations if tier == "thorough" else few):
+                    for mv in (None, 2, 3):
+                        if mv == 3 and pres not in (False, ["ins", 0, 0xD800]):
+                            continue
+                        yield {"kind": "arb", "dsecret": sec, "dname": dn, "string": raw.hex(), "max_age_days": 31,
+                               "now": 1700000005, "min_version": mv, "fclock": False, "str_value": pres, "sur": True}
+
+
 def _prim_case(rng):
     k = rng.random()
     if k < 0.35:
@@ -501,17 +648,19 @@ def gen_cases(rng, tier):
     _web()      # import tornado.web in the parent, before the workers are forked
     if tier in ("quick", "thorough"):
         yield from _scan_cases(rng, tier)
+        yield from _sur_cases(rng, tier)
         for how in ("v1name", "v1ts"):
             for _ in range(3):
                 yield _splice_case(rng, how)
     for _ in range(n):
         k = rng.random()
+        tw = (lambda c: _twist(rng, c)) if rng.random() < 0.15 else (lambda c: c)
         if k < 0.40:
-            yield _rt_case(rng)
+            yield tw(_rt_case(rng))
         elif k < 0.62:
-            yield _arb_case(rng)
+            yield tw(_arb_case(rng))
         elif k < 0.80:
-            yield _crafted_case(rng)
+            yield tw(_crafted_case(rng))
         elif k < 0.82:
             yield _splice_case(rng, rng.choice(["v1name", "v1ts"]))
         else:
@@ -521,12 +670,7 @@ def gen_cases(rng, tier):
 # ------------------------------------------------------------------ implementation runner
 def _decode(web, shim, case, string):
     shim.log = []
-    val = string
-    if case.get("str_value"):
-        try:
-            val = string.decode("ascii")
-        except UnicodeDecodeError:
-            val = string
+    val = _present(case, string)
     kw = {}
     if case["min_version"] is not None:
         kw["min_version"] = case["min_version"]
@@ -601,6 +745,9 @@ def _minv(case):
     return 1 if case["min_version"] is None else case["min_version"]
 
 
+DECODE_OP = "decode"
+
+
 def model_requests(case, impl):
     if case["kind"] == "prim":
         return [line(ID, case["op"], bytes.fromhex(case["arg"]))]
@@ -609,9 +756,9 @@ def model_requests(case, impl):
         out.append(line(ID, "create", _tbl(impl["table"]), _secret_wire(case["secret"]), case["name"], bytes.fromhex(case["value"]),
                         case["version"], case["t"], case["kv"]))
     for s, t in zip(impl["strings"], impl["tables"]):
-        sb = bytes.fromhex(s)
-        out.append(line(ID, "decode", _tbl(t), _secret_wire(case["dsecret"]), case["dname"], sb, _max_age_s(case), case["now"], _minv(case)))
-        out.append(line(ID, "keyver", sb))
+        val = _present(case, bytes.fromhex(s))     # bytes, or a str (the wire carries lone surrogates as code points)
+        out.append(line(ID, DECODE_OP, _tbl(t), _secret_wire(case["dsecret"]), case["dname"], val, _max_age_s(case), case["now"], _minv(case)))
+        out.append(line(ID, "keyver", val))
     return out
 
 
@@ -658,8 +805,17 @@ def spec_requests(case, impl):
     if case["kind"] in ("prim", "crafted"):
         return []
     iss = _issued(case, impl)
-    return [line(ID, "spec", iss, _secret_wire(case["dsecret"]), case["dname"].encode("utf-8"), bytes.fromhex(s),
-                 _max_age_s(case), case["now"], _minv(case)) for s in impl["strings"]]
+    out = []
+    dn = _enc(case["dname"])
+    for s in impl["strings"]:
+        val = _enc(_present(case, bytes.fromhex(s)))
+        if dn is None or val is None:
+            # a name / value with no UTF-8 form: nothing was ever issued that this query could present
+            # ("returns None for any other input") -> judged against an empty ledger = reject
+            out.append(line(ID, "spec", None, _secret_wire(case["dsecret"]), b"", b"", _max_age_s(case), case["now"], _minv(case)))
+        else:
+            out.append(line(ID, "spec", iss, _secret_wire(case["dsecret"]), dn, val, _max_age_s(case), case["now"], _minv(case)))
+    return out
 
 
 def spec_violation(case, impl, replies):
@@ -710,6 +866,14 @@ def stats(case, impl):
         out.append("secret:" + case["secret"][0] + ">" + case["dsecret"][0])
         for m in case["muts"]:
             out.append("mut:" + m[0])
+    dn_ok = _enc(case["dname"]) is not None
+    out.append("dname:" + ("encodable" if dn_ok else "lone-surrogate"))
+    for sx, d in zip(impl["strings"], impl["decoded"]):
+        pv = _present(case, bytes.fromhex(sx))
+        pres = "bytes" if isinstance(pv, bytes) else "str" if _enc(pv) is not None else "str-lone-surrogate"
+        out.append("present:" + pres)
+        if pres == "str-lone-surrogate" or not dn_ok:
+            out.append("unencodable->" + ("None" if d is None else d if d.startswith("Uncaught") else "value"))
     for d in impl["decoded"]:
         out.append("decoded:" + ("None" if d is None else d if d.startswith("Uncaught") else "value"))
     for k in impl["keyver"]:
